@@ -5,6 +5,7 @@ import (
 	"fmt"
 	"github.com/fabiolb/fabio/transport"
 	"log"
+	"math"
 	"net/url"
 	"reflect"
 	"sort"
@@ -44,7 +45,7 @@ type Route struct {
 }
 
 func (r *Route) addTarget(service string, targetURL *url.URL, fixedWeight float64, tags []string, opts map[string]string) {
-	if fixedWeight < 0 {
+	if fixedWeight < 0 || math.IsNaN(fixedWeight) || math.IsInf(fixedWeight, 0) {
 		fixedWeight = 0
 	}
 
@@ -220,12 +221,26 @@ const maxSlots = 1e4 // 10000
 func (r *Route) weighTargets() {
 	// how big is the fixed weighted traffic?
 	var nFixed int
-	var sumFixed float64
+	var maxFixed float64
 	for _, t := range r.Targets {
 		if t.FixedWeight > 0 {
 			nFixed++
-			sumFixed += t.FixedWeight
+			if t.FixedWeight > maxFixed {
+				maxFixed = t.FixedWeight
+			}
 		}
+	}
+
+	// sum the fixed weights relative to the largest one so that neither
+	// huge nor denormal weights can overflow the arithmetic below
+	var relSum, sumFixed float64
+	if nFixed > 0 {
+		for _, t := range r.Targets {
+			if t.FixedWeight > 0 {
+				relSum += t.FixedWeight / maxFixed
+			}
+		}
+		sumFixed = relSum * maxFixed
 	}
 
 	// if there are no targets with fixed weight then each target simply gets
@@ -240,10 +255,7 @@ func (r *Route) weighTargets() {
 	}
 
 	// normalize fixed weights up (sumFixed < 1) or down (sumFixed > 1)
-	scale := 1.0
-	if sumFixed > 1 || (nFixed == len(r.Targets) && sumFixed < 1) {
-		scale = 1 / sumFixed
-	}
+	normalize := sumFixed > 1 || (nFixed == len(r.Targets) && sumFixed < 1)
 
 	// compute the weight for the targets with dynamic weights
 	dynamic := (1 - sumFixed) / float64(len(r.Targets)-nFixed)
@@ -254,7 +266,11 @@ func (r *Route) weighTargets() {
 	// assign the actual weight to each target
 	for _, t := range r.Targets {
 		if t.FixedWeight > 0 {
-			t.Weight = t.FixedWeight * scale
+			if normalize {
+				t.Weight = t.FixedWeight / maxFixed / relSum
+			} else {
+				t.Weight = t.FixedWeight
+			}
 		} else {
 			t.Weight = dynamic
 		}
@@ -298,6 +314,12 @@ func (r *Route) weighTargets() {
 		slots[i].i = i
 		slots[i].n = n
 		usedSlots += n
+	}
+
+	// never leave the pickers with an empty ring
+	if usedSlots <= 0 {
+		r.wTargets = r.Targets
+		return
 	}
 
 	sort.Sort(slots)
